@@ -55,16 +55,16 @@ func WConfig(prop, tier string) *Config {
 			cfg.Phases = []Phase{{Name: "full-depth2", Roots: roots01, Ops: ops, Depth: 2, Dev: 2}}
 		}
 	case "C02":
-		ops := []string{"create_pool_lp1", "join_p1_all_t1", "join_p1_single_usdc_t1", "join_p1_single_atom_dust_t2", "join_p2_all_t1", "exit_p1_10pct_lp1", "exit_p1_single_atom_lp1", "exit_p1_all_t1", "exit_p2_allbut1_lp1", "exit_p2_all_lp1", "exit_p1_1share_lp1",
+		ops := []string{"create_pool_lp1", "join_p1_all_t1", "join_p1_single_usdc_t1", "join_p1_single_atom_dust_t2", "join_p2_all_t1", "exit_p1_10pct_lp1", "exit_p1_single_atom_lp1", "exit_p1_all_t1", "exit_p2_all_t1", "exit_p1_all_lp1", "unbond_lp2_all", "exit_p2_allbut1_lp1", "exit_p2_all_lp1", "exit_p1_1share_lp1",
 			"llp_open_t1_x3", "llp_open_t1_x2_again", "llp_open_t2_x5", "llp_close_half_t1", "llp_close_full_t1", "llp_bot_close_all", "llp_claim_t1", "mc_claim_lp1", "price_atom_2", "price_atom_1", "price_atom_12", "swap_in_p1_usdc_atom_L", "gap_1d"}
 		cfg.Oracles = []*Oracle{OracleC02()}
 		if thorough {
 			cfg.Phases = []Phase{
-				{Name: "full-depth3", Roots: []string{"R0", "R1", "R5"}, Ops: ops, Depth: 3, Dev: 2},
+				{Name: "full-depth3", Roots: []string{"R0", "R1", "R5", "R6"}, Ops: ops, Depth: 3, Dev: 2},
 				{Name: "llp-exit-depth4", Roots: roots01, Ops: []string{"join_p1_all_t1", "exit_p1_all_t1", "exit_p1_single_atom_lp1", "llp_open_t1_x3", "llp_open_t1_x2_again", "llp_open_t2_x5", "llp_close_half_t1", "llp_close_full_t1", "llp_bot_close_all", "price_atom_2"}, Depth: 4, Dev: 2},
 			}
 		} else {
-			cfg.Phases = []Phase{{Name: "full-depth2", Roots: []string{"R0", "R1", "R5"}, Ops: ops, Depth: 2, Dev: 2}}
+			cfg.Phases = []Phase{{Name: "full-depth2", Roots: []string{"R0", "R1", "R5", "R6"}, Ops: ops, Depth: 2, Dev: 2}}
 		}
 	case "C06":
 		ops := []string{"bond_lp1_L", "bond_lp1_D", "unbond_lp2_half", "unbond_lp2_D", "unbond_lp2_all", "llp_open_t1_x3", "llp_open_t1_x2_again", "llp_open_t2_x5", "llp_close_half_t1", "llp_close_full_t1", "llp_close_full_t2", "llp_bot_close_all",
@@ -106,12 +106,13 @@ func WConfig(prop, tier string) *Config {
 		}
 	case "C12":
 		ops := []string{"bond_lp1_L", "unbond_lp2_half", "unbond_lp1_all", "join_p1_all_t1", "exit_p1_all_t1", "exit_p1_10pct_lp1", "join_p2_all_t1", "exit_p2_all_t1", "llp_open_t1_x3", "llp_close_full_t1", "llp_bot_close_all", "mc_claim_lp1", "commit_eden_lp1", "commit_edenb_lp1", "uncommit_eden_lp1",
-			"vest_eden_lp1", "cancel_vest_lp1", "claim_vesting_lp1", "stake_elys_lp1", "unstake_elys_lp1", "gap_59m", "gap_61m", "price_atom_2", "empty"}
+			"vest_eden_lp1", "cancel_vest_lp1", "claim_vesting_lp1", "stake_elys_lp1", "unstake_elys_lp1", "gap_59m", "gap_61m", "price_atom_2", "empty", "exit_p2_all_lp1", "unbond_lp2_all"}
 		cfg.Oracles = []*Oracle{OracleC12()}
+		roots016 := []string{"R0", "R1", "R6"}
 		if thorough {
-			cfg.Phases = []Phase{{Name: "full-depth3", Roots: roots01, Ops: ops, Depth: 3, Dev: 3}, {Name: "commit-depth4", Roots: []string{"R1"}, Ops: []string{"mc_claim_lp1", "commit_eden_lp1", "commit_edenb_lp1", "uncommit_eden_lp1", "vest_eden_lp1", "cancel_vest_lp1", "stake_elys_lp1", "unstake_elys_lp1", "exit_p1_10pct_lp1", "unbond_lp2_half", "gap_61m"}, Depth: 4, Dev: 3}}
+			cfg.Phases = []Phase{{Name: "full-depth3", Roots: roots016, Ops: ops, Depth: 3, Dev: 3}, {Name: "commit-depth4", Roots: []string{"R1"}, Ops: []string{"mc_claim_lp1", "commit_eden_lp1", "commit_edenb_lp1", "uncommit_eden_lp1", "vest_eden_lp1", "cancel_vest_lp1", "stake_elys_lp1", "unstake_elys_lp1", "exit_p1_10pct_lp1", "unbond_lp2_half", "gap_61m"}, Depth: 4, Dev: 3}}
 		} else {
-			cfg.Phases = []Phase{{Name: "full-depth2", Roots: roots01, Ops: ops, Depth: 2, Dev: 2}}
+			cfg.Phases = []Phase{{Name: "full-depth2", Roots: roots016, Ops: ops, Depth: 2, Dev: 2}}
 		}
 	case "C13":
 		ops := []string{"swap_in_p1_usdc_atom_L", "swap_in_p2_usdc_elys_L", "fee_tx_uusdc", "fee_tx_uatom", "fee_tx_uelys", "perp_open_long_t1", "perp_close_full_t1", "gap_1d", "ext_incentive_lp1", "join_p1_all_t1", "exit_p1_all_t1", "join_p2_all_lp2", "bond_lp1_L", "unbond_lp2_half",
